@@ -586,6 +586,45 @@ def n3(e: Engine, rep: Report, K: Kinds):
                 ok = any((p and k.endswith(' is None')) or
                          (not p and k.endswith('.is_error()'))
                          for p, k in st)
+                if not ok:
+                    # written for the keys picked out beforehand:
+                    #   open = [k for k, v in table.items() if v is None]
+                    #   for k in open: table[k] = ...
+                    fnode = n.frame.ctx.func.node
+                    for lp in walk_own(fnode):
+                        if not (isinstance(lp, ast.For) and
+                                isinstance(lp.iter, ast.Name) and
+                                isinstance(lp.target, ast.Name) and
+                                any(x is n.ast for x in ast.walk(lp)) and
+                                isinstance(tgt.slice, ast.Name) and
+                                tgt.slice.id == lp.target.id):
+                            continue
+                        ds = [a.value for a in walk_own(fnode)
+                              if isinstance(a, ast.Assign) and any(
+                                  isinstance(t, ast.Name) and
+                                  t.id == lp.iter.id for t in a.targets)]
+                        if len(ds) == 1 and isinstance(
+                                ds[0], (ast.ListComp, ast.GeneratorExp,
+                                        ast.SetComp)) and \
+                                len(ds[0].generators) == 1:
+                            gen = ds[0].generators[0]
+                            it = gen.iter
+                            tgl = gen.target
+                            if isinstance(it, ast.Call) and \
+                                    isinstance(it.func, ast.Attribute) and \
+                                    it.func.attr == 'items' and \
+                                    ast.unparse(it.func.value) == \
+                                    ast.unparse(tgt.value) and \
+                                    isinstance(tgl, ast.Tuple) and \
+                                    len(tgl.elts) == 2 and \
+                                    isinstance(ds[0].elt, ast.Name) and \
+                                    isinstance(tgl.elts[0], ast.Name) and \
+                                    ds[0].elt.id == tgl.elts[0].id and \
+                                    isinstance(tgl.elts[1], ast.Name) and \
+                                    len(gen.ifs) == 1 and \
+                                    ast.unparse(gen.ifs[0]) == \
+                                    '%s is None' % tgl.elts[1].id:
+                                ok = True
                 rep.check(ok, 'N3', where, 'success entry only where no '
                           'failure was recorded: ' + n.text(50),
                           'a per-recipient result is overwritten with a '
